@@ -8,7 +8,7 @@ PROP = dict(
           "works from the rounded values. Camera matrices for planes(p,M)/FrustumTest: identity, rigid, uniformly scaled (10^-2..10^2), "
           "non-uniformly positively scaled (10^-0.7..10^0.7 per axis), translation 0.1..10 x frustum size (1/4 none). "
           "Probes: the 8 analytic corners; points at random screen positions in [-1.5,1.5]^2 and depths log-uniform in [near/4,4 far] / "
-          "uniform in NDC / uniform in depth; integer z ranges 8/16/24/31 bit and a signed one; per plane points displaced from the "
+          "uniform in NDC / uniform in depth; integer z ranges 8/16/24/31/32 bit and a signed one; per plane points displaced from the "
           "face by len*10^-j (j=1..9), spheres and boxes whose centre sits at signed distance +-rho(1+-10^-j) (j=1..8) from the plane "
           "(rho = radius resp. support radius of the box along the plane normal), flat boxes included. An exact integer lattice "
           "(orthographic boxes, 45-degree perspective frusta, 24 axis rotations, integer translations) supplies points exactly on "
@@ -16,12 +16,12 @@ PROP = dict(
           "exist in these functions)."),
     assumptions=["non-degenerate means left<right, bottom<top, near<far, perspective near>0; (far-near) >= 0.02 |near|; inverted windows are not driven",
                  "the oracle is evaluated in x87 long double (64-bit significand): 2048x finer than double, enough for tolerance-based judgement but not exact",
-                 "inputs closer to a frustum boundary than C_SIGN=16 conditioning units (eps x magnitudes x shape factor of the three points a plane is built from) are counted, not judged; "
+                 "inputs closer to a frustum boundary than 8 (planes(p): 3) conditioning units (eps x magnitudes x shape factor of the three points a plane is built from) are counted, not judged; "
                  "the conditioning model knows which three corners planes(p,M) uses for each plane (to size the tolerance only, never an expected value)",
                  "'touches' for isVisible(box/sphere) is read as in DESIGN.md: the object contains a point strictly inside the open region; externally tangent objects carry no claim; "
                  "the witness points tried are the centre, the 6 points of a sphere extreme along the plane normals, the 8 corners of a box",
                  "screenRadius/worldRadius are only required to be mutually inverse for orthographic frusta (they ignore the kind); for perspective ones the value r*near/depth is also checked",
-                 "integer z ranges keep zmax-zmin < 2^31 (ZToDepth stores the difference in an int) and zmin <= z <= zmax",
+                 "integer z values satisfy zmin <= z <= zmax; ranges up to 32 bit (0..2^32-1) are driven",
                  "the throwing *Exc twins are C07's subject and are not driven here"],
     technique=("randomised class-directed execution of Frustum<T>/FrustumTest<T> (T=float,double) against an independent long-double camera-space model "
                "(corners, NDC map, unit plane normals written from the six frustum numbers; world space via the exact inverse of the rounded matrix); "
@@ -29,7 +29,7 @@ PROP = dict(
     level_text=("Every function family named in the statement is executed for float and double on 10^5..2*10^6 (quick) resp. 4*10^6..6*10^7 (thorough) frusta per sub-check "
                 "covering both kinds, eight decades of near/far, four window classes incl. off-axis ones, four classes of camera matrices and objects straddling each of the six planes "
                 "at graded relative depths 10^-1..10^-8; points exactly on each plane are enumerated on an integer lattice where the library's arithmetic is exact. "
-                "Sign verdicts within 16 conditioning units of a boundary are not judged, so a defect that only moves a plane by a few ulps of its conditioning is invisible."),
+                "Sign verdicts within 8 conditioning units of a boundary are not judged, so a defect that only moves a plane by a few ulps of its conditioning is invisible."),
     level_note="sampled, not exhaustive; conservative culling is judged through witness points, so a false 'invisible' for an object that intersects the frustum only between its witness points is not observed",
     monitors=[M("c16_frustum", ["c16_projection.cpp", "c16_planes.cpp"], san_scale=0.05, san_scale_thorough=0.02)],
 )
